@@ -46,11 +46,21 @@ where
 {
     let mut assumed_response_time = Duration::from(1);
     while assumed_response_time <= divergence_limit {
+        #[cfg(feature = "verif-hooks")]
+        crate::verif_hooks::tick("fixed_point::search_with_offset");
         let demand = workload(assumed_response_time);
         let demand_met = Offset::from_time_zero(supply.service_time(demand));
         let response_time_bound = offset.distance_to(demand_met);
         if response_time_bound <= assumed_response_time {
             // we have converged
+            #[cfg(feature = "verif-hooks")]
+            crate::verif_hooks::on_search_exit(
+                supply,
+                offset,
+                divergence_limit,
+                Ok(response_time_bound),
+                workload,
+            );
             return Ok(response_time_bound);
         } else {
             // continue iterating
@@ -58,6 +68,17 @@ where
         }
     }
     // if we get here, we failed to converge => no solution
+    #[cfg(feature = "verif-hooks")]
+    crate::verif_hooks::on_search_exit(
+        supply,
+        offset,
+        divergence_limit,
+        Err(SearchFailure::DivergenceLimitExceeded {
+            offset,
+            limit: divergence_limit,
+        }),
+        workload,
+    );
     Err(SearchFailure::DivergenceLimitExceeded {
         offset,
         limit: divergence_limit,
@@ -131,6 +152,8 @@ where
 /// This utility function is useful when analyzing a set of offsets
 /// that must be considered as part of a response-time analysis.
 pub fn max_response_time(rta_per_offset: impl Iterator<Item = SearchResult>) -> SearchResult {
+    #[cfg(feature = "verif-hooks")]
+    let rta_per_offset = rta_per_offset.inspect(crate::verif_hooks::on_max_item);
     rta_per_offset
         .max_by(|a, b| {
             // propagate any errors values
